@@ -61,7 +61,7 @@ def cs_seq_cfgs(tier):
             for cap in (1, 2):
                 for rs in _seeds(pol, tier):
                     out.append({"driver": "cs-seq", "sys": "cs", "pol": pol, "wt": wt, "cap": cap, "depth": depth,
-                                "rseed": rs, "inv_all": tier != "quick"})
+                                "rseed": rs, "inv_all": True})
     return out
 
 
@@ -119,7 +119,9 @@ def mtc_seq_cfgs(tier):
         for promo in ("always", "on_second_access", "never"):
             for cap in (1, 2):
                 # a write-back L1 is explored for three representative policies only (thorough)
-                for wt in ((True, False) if tier != "quick" and pol in ("LRU", "LFU", "Clock") else (True,)):
+                # and, in quick, for LRU
+                wb_too = pol in ("LRU", "LFU", "Clock") if tier != "quick" else pol == "LRU"
+                for wt in ((True, False) if wb_too else (True,)):
                     out.append({"driver": "mtc-seq", "sys": "mtc", "pol": pol, "promo": promo, "cap": cap, "wt": wt,
                                 "depth": 4 if tier == "quick" else 5, "rseed": 1})
     return out
@@ -290,7 +292,7 @@ def main(tier, seed, only=None):
                                 "write_modes": ["write-through", "write-back"], "capacity": [1, 2],
                                 "keys": ["a", "b", "c"], "depth": cfgs[0]["depth"],
                                 "ops": "get/put/delete/invalidate x key, flush"
-                                       + (", invalidate_all" if tier != "quick" else ""),
+                                       + ", invalidate_all",
                                 "seeds(Random,SampledLRU)": _seeds("Random", tier), "configs": len(cfgs)},
                      "seq", cfgs))
     if want("cs-overlap"):
